@@ -38,11 +38,6 @@ package stdlib
 //@   ensures [below] int_ok(app((*args)[0], context)) && atoi(app((*args)[0], context)) < *min ==> result == "min"
 //@   ensures [above] int_ok(app((*args)[0], context)) && atoi(app((*args)[0], context)) >= *min && atoi(app((*args)[0], context)) > *max ==> result == "max"
 
-// bucketrange: same bucket arithmetic; the formatted text "<b> - <b+s-1>" is checked by the
-// bounded oracle only (byte-level string building is outside the proof), safety is proved.
-//@ func kfBucketRange$1
-//@   requires *bucketSize > 0
-//@   requires len(*args) == 2
 
 // C18: quarter is 1..4 with January-March = 1, i.e. (month-1)/3 + 1.
 //@ func init$5 at "month := int(t.Month())"
@@ -186,3 +181,54 @@ package stdlib
 // bar width: validated when the stage is built
 //@ func kfBar$1
 //@   requires 0 <= *maxLen && *maxLen <= 1000000
+
+// ---- C11: more scalar helpers against their documented semantics ----
+
+// bucketrange: "<b> - <b+s-1>" where b is the bucket of the value (same arithmetic as bucket):
+// the range contains the value, starts at a multiple of the size and is exactly one bucket wide
+//@ func kfBucketRange$1
+//@   requires *bucketSize > 0
+//@   requires len(*args) == 2
+//@   assert at "ret := make([]byte, 0, 20)" : val >= MinInt64 + *bucketSize ==> start <= val && start == fdiv(val, *bucketSize) * *bucketSize
+//@   assert at "ret := make([]byte, 0, 20)" : val >= MinInt64 + *bucketSize && start <= MaxInt64 - *bucketSize + 1 ==> end == start + *bucketSize - 1 && val <= end
+
+// the integer argument parser of the arithmetic helpers: plain base-10 integers
+//@ func init$2 at "typedParserInt = func(s string) (int, bool) {"
+//@   ensures result1 == int_ok(s)
+//@   ensures result1 ==> result0 == atoi(s)
+
+// substr s left len: left counts from the end when negative and is clamped to the string, the
+// length is clamped to what is left (computed without wrap-around)
+//@ func kfSubstr$1
+//@   ensures [empty] len(app((*args)[0], context)) == 0 ==> result == ""
+//@   ensures [bad-type] len(app((*args)[0], context)) > 0 && !(int_ok(app((*args)[1], context)) && int_ok(app((*args)[2], context))) ==> result == "<BAD-TYPE>"
+//@   ensures [window] len(app((*args)[0], context)) > 0 && int_ok(app((*args)[1], context)) && int_ok(app((*args)[2], context)) ==> result == app((*args)[0], context)[sub_lo(len(app((*args)[0], context)), atoi(app((*args)[1], context))):sub_hi(len(app((*args)[0], context)), atoi(app((*args)[1], context)), atoi(app((*args)[2], context)))]
+//@ smt
+//@ (define-fun sub_lo ((n Int) (left Int)) Int (ite (< left 0) (ite (< (+ left n) 0) 0 (+ left n)) (ite (> left n) n left)))
+//@ (define-fun sub_hi ((n Int) (left Int) (len Int)) Int (let ((lo (sub_lo n left)) (l (ite (< len 0) 0 len))) (ite (> (+ lo l) n) n (+ lo l))))
+//@ end
+
+// csv field: a field containing a quote or a line break is quoted with its quotes doubled
+// (RFC 4180), a field containing only commas is quoted, anything else is left alone
+//@ smt
+//@ (declare-fun str_contains_any (Str Str) Bool)
+//@ (declare-fun str_contains (Str Str) Bool)
+//@ (declare-fun str_replace_all (Str Str Str) Str)
+//@ end
+//@ extern strings.ContainsAny
+//@   params (s, chars)
+//@   pure
+//@   ensures result == str_contains_any(s, chars)
+//@ extern strings.Contains
+//@   params (s, substr)
+//@   pure
+//@   ensures result == str_contains(s, substr)
+//@ extern strings.ReplaceAll
+//@   params (s, old, new)
+//@   pure
+//@   ensures result == str_replace_all(s, old, new)
+//@ func csvItemEncode
+//@   pure
+//@   ensures [quote] str_contains_any(s, "\"\r\n") ==> result == "\"" + str_replace_all(s, "\"", "\"\"") + "\""
+//@   ensures [comma] !str_contains_any(s, "\"\r\n") && str_contains(s, ",") ==> result == "\"" + s + "\""
+//@   ensures [plain] !str_contains_any(s, "\"\r\n") && !str_contains(s, ",") ==> result == s
